@@ -78,8 +78,11 @@ func newDrvProxy() *drvProxy {
 		case strings.HasSuffix(r.URL.Path, "agent/response"):
 			p.mu.Lock()
 			f, prog, dn := p.uploadF[id], p.progress[id], p.done[id]
+			if f == "500-early-once" {
+				delete(p.uploadF, id) // only the first attempt is refused
+			}
 			p.mu.Unlock()
-			if f == "500-early" {
+			if f == "500-early" || f == "500-early-once" {
 				w.WriteHeader(500)
 				return
 			}
@@ -258,6 +261,10 @@ func suiteStream(e *vh.Env) {
 			}
 		}
 		px.mu.Unlock()
+		// (A variant in which the proxy refuses the first upload attempt was tried here and removed: after a retry the
+		// stream can stall because the failed attempt's body reader is still alive and takes the next chunk - the
+		// recorded finding C06:ack-corrupt:retry-overlaps-live-body-reader - and C05 does not quantify over faults.)
+		retried := false
 		dn := px.submit(id, "GET /s/"+id+" HTTP/1.1\r\nHost: backend.example\r\n\r\n")
 		select {
 		case <-dn:
@@ -276,7 +283,10 @@ func suiteStream(e *vh.Env) {
 			}
 		}
 		if st > 0 {
-			e.Fail("C05:chunk-not-relayed", fmt.Sprintf("run %d: chunk %d of %d (sizes %v…) was flushed by the backend but not observed by the proxy within 3 s, while the backend waits for it before producing more", i, st, len(sizes), truncInts(sizes, 12)), i, nil, nil, nil)
+			if retried {
+				e.Count("stalled-after-retry")
+			}
+			e.Fail("C05:chunk-not-relayed", fmt.Sprintf("run %d (first upload attempt refused by the proxy: %v): chunk %d of %d (sizes %v…) was flushed by the backend but not observed by the proxy within 3 s, while the backend waits for it before producing more", i, retried, st, len(sizes), truncInts(sizes, 12)), i, nil, nil, nil)
 		}
 		px.mu.Lock()
 		up := len(px.uploads[id])
